@@ -39,6 +39,36 @@ def check(ctx: Ctx) -> None:
     ctx.assume('equal antennas per user (the property quantifies over that); np.dot/@ spellings; Frobenius norms via np.linalg.norm(., "fro")')
     from ..commit import check_family
     check_family(ctx, 'C09.g', ['BlockDiagonalizer'], floor=1)
+    # ------------------------------------------------------------------ C09.i
+    from .. import matterms as X
+    ctx.rule('C09.i', 'the per-user receive filters invert the (projected) equivalent channel: W Heq = I as an identity of matrix terms '
+                      '(pseudo-inverse contract on full-column-rank matrices; P-bar = projection onto the kept interference-free subspace)',
+             floor=2)
+    for cname, mname in (('BlockDiagonalizer', 'calc_receive_filter'), ('EnhancedBD', 'calc_receive_filter_user_k')):
+        fnr = M.lookup_method(M.cls(cname), mname)
+        if fnr is None:
+            ctx.error('C09.i: %s.%s vanished' % (cname, mname))
+        cases = [('plain', [X.Val('mat', X.MT.sym('Heq'))])]
+        if len([p_ for p_ in fnr.params if p_ not in ('self', 'cls')]) > 1:
+            cases = [('no projection', [X.Val('mat', X.MT.sym('Heq')), X.Val('none')]),
+                     ('with projection', [X.Val('mat', X.MT.sym('Heq')), X.Val('mat', X.MT.sym('Pk'))])]
+        for label, args in cases:
+            construct = '%s.%s:%s' % (cname, mname, label)
+            ctx.instance('C09.i', construct)
+            cx = X.Ctx()
+            itx = X.MatInterp(M, cx, M.cls(cname))
+            try:
+                w = itx.call_function(fnr, args, {})
+                if w.kind != 'mat':
+                    raise X.Unknown('the filter is a %s' % w.kind)
+                okx, l, r = X.proves(X.mul(w.v, X.MT.sym('Heq'), cx), X.MT.identity(), cx)
+            except X.Unknown as e:
+                ctx.error('C09.i: cannot extract the matrix term of %s (%s): cannot tell' % (fnr.qualname, e))
+            ctx.obligation('C09.i', construct, okx, {'filter': w.v.pretty(), 'filter_times_channel': l.pretty()})
+            if not okx:
+                ctx.violation('C09.i', fnr.qualname, 'the receive filter `%s` times the equivalent channel normalises to `%s`, not to the identity: '
+                              'the streams of the user are not recovered' % (w.v.pretty()[:90], l.pretty()[:90]), fnr.path, fnr.lineno,
+                              operand='inverts:' + label.replace(' ', '-'))
     # ------------------------------------------------------------------ C09.h
     ctx.rule('C09.h', 'receive filters are formed with the PSEUDO-inverse of the effective channel: water-filling may give a stream zero power '
                       '(a zero column), for which inv/solve raise while pinv still inverts every powered stream', floor=2)
@@ -454,6 +484,14 @@ def _check_dispatch(ctx: Ctx) -> None:
 
 
 MUTANTS = [
+    Mutant('projected-filter-forgets-projection-on-the-right', BD, 'EnhancedBD.calc_receive_filter_user_k',
+           [('replace', 'W = np.dot(np.linalg.pinv(np.dot(overbar_P, Heq_k_P)), overbar_P)', 'W = np.linalg.pinv(np.dot(overbar_P, Heq_k_P))')],
+           r'C09\.i:EnhancedBD\.calc_receive_filter_user_k'),
+    Mutant('filter-uses-inv', BD, 'BlockDiagonalizer.calc_receive_filter', [('replace', 'np.linalg.pinv(newH)', 'np.linalg.inv(newH)')],
+           r'C09\.h:BlockDiagonalizer\.calc_receive_filter'),
+    Mutant('benign-filter-matmul', BD, 'EnhancedBD.calc_receive_filter_user_k',
+           [('replace', 'W = np.dot(np.linalg.pinv(np.dot(overbar_P, Heq_k_P)), overbar_P)', 'W = np.linalg.pinv(overbar_P @ Heq_k_P) @ overbar_P')],
+           None, benign=True),
     Mutant('revert-fix-metric-name-before-validation', BD, 'EnhancedBD.set_ext_int_handling_metric',
            [('regex', r"(    elif metric == 'naive':\n)", r"\1        self._metric_func_name = 'naive'\n")], r'C09\.g:EnhancedBD\.set_ext_int_handling_metric'),
     Mutant('tilde-channel-includes-own-user', BD, 'BlockDiagonalizer._get_tilde_channel',
@@ -484,5 +522,5 @@ MUTANTS = [
            [('replace', 'for user in range(0, self.num_users):', 'for user in range(self.num_users):')], None, benign=True),
 ]
 
-ENGINES = ['model', 'terms']
+ENGINES = ['model', 'terms', 'matterms', 'paths']
 TECHNIQUE = ('static analysis: summation-domain, block-arithmetic (terms), normaliser-shape, provider-pairing and dispatch-exhaustiveness rules')
